@@ -131,6 +131,132 @@ def inline_attribute_aliases(tree):
     return count
 
 
+def _pure_constant(node, known):
+    """Is ``node`` an expression built from literals (and already known module
+    constants) with immutable value: numbers, strings, tuples, frozenset(...),
+    arithmetic, math.* calls?"""
+    if isinstance(node, ast.Constant):
+        return True
+    if isinstance(node, ast.Name):
+        return node.id in known
+    if isinstance(node, ast.Tuple):
+        return all(_pure_constant(e, known) for e in node.elts)
+    if isinstance(node, ast.UnaryOp) and isinstance(node.op, (ast.USub, ast.UAdd)):
+        return _pure_constant(node.operand, known)
+    if isinstance(node, ast.BinOp) and isinstance(node.op, (ast.Add, ast.Sub, ast.Mult, ast.Div, ast.Pow)):
+        return _pure_constant(node.left, known) and _pure_constant(node.right, known)
+    if isinstance(node, ast.Call) and not node.keywords:
+        fn = node.func
+        name = fn.id if isinstance(fn, ast.Name) else (
+            '%s.%s' % (fn.value.id, fn.attr) if isinstance(fn, ast.Attribute) and isinstance(fn.value, ast.Name)
+            else None)
+        if name in ('ord', 'chr', 'len', 'abs', 'float', 'int', 'frozenset', 'tuple') or \
+                (name or '').startswith('math.'):
+            return all(_pure_constant(a, known) or (
+                isinstance(a, (ast.Set, ast.List)) and all(_pure_constant(e, known) for e in a.elts))
+                for a in node.args)
+    return False
+
+
+def propagate_module_constants(tree):
+    """Normalisation: a module-level name bound once to an immutable constant
+    expression (``_TER = 'TER'``, ``RIGHT_ANGLE = math.radians(90)``,
+    ``DETERMINANT_TYPES = ('sidechain', 'backbone', 'coulomb')``) is read as
+    that expression inside the functions of the module, unless the function
+    binds the name itself.  Rules then see the literal whether or not it has
+    been given a name.  The defining statement stays.  Returns the number of
+    names propagated."""
+    import copy
+    stores = {}
+    for n in ast.walk(tree):
+        if isinstance(n, ast.Name) and isinstance(n.ctx, (ast.Store, ast.Del)):
+            stores[n.id] = stores.get(n.id, 0) + 1
+        if isinstance(n, (ast.Global, ast.Nonlocal)):
+            for nm in n.names:
+                stores[nm] = stores.get(nm, 0) + 2
+    # names compared by identity or used as annotations stand for themselves
+    identity_names = set()
+    for n in ast.walk(tree):
+        if isinstance(n, ast.Compare) and any(isinstance(o, (ast.Is, ast.IsNot)) for o in n.ops):
+            identity_names |= {x.id for x in ast.walk(n) if isinstance(x, ast.Name)}
+        if isinstance(n, ast.AnnAssign):
+            identity_names |= {x.id for x in ast.walk(n.annotation) if isinstance(x, ast.Name)}
+        if isinstance(n, ast.arg) and n.annotation is not None:
+            identity_names |= {x.id for x in ast.walk(n.annotation) if isinstance(x, ast.Name)}
+    consts = {}
+    for st in tree.body:
+        tgt = val = None
+        if isinstance(st, ast.Assign) and len(st.targets) == 1 and isinstance(st.targets[0], ast.Name):
+            tgt, val = st.targets[0].id, st.value
+        elif isinstance(st, ast.AnnAssign) and isinstance(st.target, ast.Name) and st.value is not None:
+            tgt, val = st.target.id, st.value
+        if tgt is None or stores.get(tgt) != 1 or tgt.startswith('__') or tgt in identity_names:
+            continue
+        if _pure_constant(val, consts):
+            # expand references to earlier constants inside the value
+            val = copy.deepcopy(val)
+            for sub in ast.walk(val):
+                if isinstance(sub, ast.Name) and sub.id in consts:
+                    rep = copy.deepcopy(consts[sub.id])
+                    sub.__class__ = rep.__class__
+                    sub.__dict__.clear()
+                    sub.__dict__.update(rep.__dict__)
+            consts[tgt] = val
+    if not consts:
+        return 0
+    used = set()
+    for fn in [n for n in ast.walk(tree) if isinstance(n, (ast.FunctionDef, ast.AsyncFunctionDef))]:
+        local = {a.arg for a in fn.args.args + fn.args.kwonlyargs + fn.args.posonlyargs}
+        if fn.args.vararg:
+            local.add(fn.args.vararg.arg)
+        if fn.args.kwarg:
+            local.add(fn.args.kwarg.arg)
+        for n in ast.walk(fn):
+            if isinstance(n, ast.Name) and isinstance(n.ctx, (ast.Store, ast.Del)):
+                local.add(n.id)
+        for n in ast.walk(fn):
+            if isinstance(n, ast.Name) and isinstance(n.ctx, ast.Load) and n.id in consts \
+                    and n.id not in local:
+                rep = copy.deepcopy(consts[n.id])
+                for sub in ast.walk(rep):
+                    ast.copy_location(sub, n)
+                used.add(n.id)
+                n.__class__ = rep.__class__
+                n.__dict__.clear()
+                n.__dict__.update(rep.__dict__)
+    return len(used)
+
+
+def split_tuple_assignments(tree):
+    """Normalisation: ``a, b = x, y`` with as many expressions as targets, none
+    of which reads a target, is read as ``a = x`` followed by ``b = y``."""
+    count = 0
+    for holder in ast.walk(tree):
+        for field in ('body', 'orelse', 'finalbody'):
+            block = getattr(holder, field, None)
+            if not (isinstance(block, list) and block and isinstance(block[0], ast.stmt)):
+                continue
+            new = []
+            for st in block:
+                if isinstance(st, ast.Assign) and len(st.targets) == 1 \
+                        and isinstance(st.targets[0], (ast.Tuple, ast.List)) \
+                        and isinstance(st.value, (ast.Tuple, ast.List)) \
+                        and len(st.targets[0].elts) == len(st.value.elts) \
+                        and not any(isinstance(e, ast.Starred) for e in st.targets[0].elts + st.value.elts):
+                    tnames = {n.id for t in st.targets[0].elts for n in ast.walk(t) if isinstance(n, ast.Name)}
+                    reads = {n.id for v in st.value.elts for n in ast.walk(v) if isinstance(n, ast.Name)}
+                    pure = not any(isinstance(n, ast.Call) for v in st.value.elts for n in ast.walk(v)) or \
+                        all(isinstance(t, ast.Name) for t in st.targets[0].elts)
+                    if not (tnames & reads) and pure:
+                        for t, v in zip(st.targets[0].elts, st.value.elts):
+                            new.append(ast.copy_location(ast.Assign(targets=[t], value=v), st))
+                        count += 1
+                        continue
+                new.append(st)
+            setattr(holder, field, new)
+    return count
+
+
 def orient_comparisons(tree):
     """Normalisation: every single ordering comparison is read in its `<` form
     (``a > b`` as ``b < a``, ``a >= b`` as ``b <= a``).  Rules about thresholds
@@ -268,6 +394,10 @@ class Module:
             self.tree = ast.parse(self.src, filename=path)
         except SyntaxError as err:  # a tree that does not compile
             raise AnalysisError('cannot parse {0}: {1}'.format(path, err))
+        from .inline import inline_private_helpers
+        self.inlined_helpers = inline_private_helpers(self.tree)
+        self.split_tuples = split_tuple_assignments(self.tree)
+        self.propagated_constants = propagate_module_constants(self.tree)
         self.inlined_aliases = inline_attribute_aliases(self.tree)
         self.inlined_temporaries = inline_test_temporaries(self.tree)
         self.oriented_comparisons = orient_comparisons(self.tree)
